@@ -60,6 +60,9 @@ func checkC09(w *World, r *Report) {
 	fns := w.pkgFuncs("lib/concurrent")
 	n := pairRule(w, r, e, "C09.pair", fns)
 	r.floor("C09.pair", "lock acquisitions and releases in lib/concurrent", n, 6)
+	r.rule("C09.no-reentry", "no function of lib/concurrent acquires a mutex it already holds, or calls with the lock held a function that acquires the mutex of the same object (sync.RWMutex is not re-entrant even for readers: deref, swap! and reset! on that atom would block forever once a writer queues in between)")
+	nre := reentryRule(w, r, e, "C09.no-reentry", fns)
+	r.floor("C09.no-reentry", "calls and acquisitions made with a lock held in lib/concurrent", nre, 1)
 	r.floor("C09.guard", "accesses to Atom.Val/version", r.count("C09.guard"), 8)
 
 	// callback under lock
@@ -763,6 +766,13 @@ func checkC10(w *World, r *Report) {
 	r.floor("C10.deliver", "exits of the body goroutine", nd, 2)
 	singleOutcomeRule(w, r, e, "C10.single-outcome")
 	doneFlagRule(w, r, e, "C10.done-flag")
+	r.rule("C10.body-context", "every evaluation lib/concurrent starts runs under the context its function was given or a child of it, never under one captured from an enclosing activation in its place: the body of a future runs under the very context that future-cancel cancels (shared with C07.derive)")
+	if m10 := newEvalModel(w, e); m10.ok {
+		nbc := ctxDeriveRule(w, r, e, m10, "C10.body-context", func(f *ssa.Function) bool { return fnPkgPath(f) == modPath+"/lib/concurrent" })
+		r.floor("C10.body-context", "contexts handed to evaluating calls in lib/concurrent", nbc, 2)
+	} else {
+		r.undecided("C10.body-context", nil, "evaluator model", token.NoPos, m10.why)
+	}
 	futureWritersRule(w, r, e, "C10.readers")
 	cancelAnswerRule(w, r, e, "C10.cancel-answer")
 	// redeposit
@@ -808,6 +818,52 @@ func checkC10(w *World, r *Report) {
 		}
 	}
 	r.floor("C10.redeposit", "receives from outcome channels in Deref", nrecv, 2)
+	// every answer of Deref follows a receive: an outcome, or the end of the caller's context
+	r.rule("C10.deref-waits", "Deref returns only on a path on which a select delivered something (an outcome from one of the future's channels, or the end of the caller's context): it never answers from a non-blocking look at the channels, which are momentarily empty while another reader holds the outcome between its receive and its re-deposit, or between the done flag and the delivery")
+	{
+		nw := 0
+		for _, b := range deref.Blocks {
+			if len(b.Instrs) == 0 || b == deref.Recover {
+				continue
+			}
+			ret, ok := b.Instrs[len(b.Instrs)-1].(*ssa.Return)
+			if !ok {
+				continue
+			}
+			nw++
+			decided := false
+			for _, d := range deref.Blocks {
+				iff := blockIf(d)
+				if iff == nil {
+					continue
+				}
+				bo, ok := iff.Cond.(*ssa.BinOp)
+				if !ok || bo.Op != token.EQL {
+					continue
+				}
+				ex, ok := bo.X.(*ssa.Extract)
+				if !ok || ex.Index != 0 {
+					continue
+				}
+				if _, isSel := ex.Tuple.(*ssa.Select); !isSel {
+					continue
+				}
+				if k, ok := bo.Y.(*ssa.Const); ok && k.Value != nil && k.Int64() >= 0 && edgeDominates(d, 0, b) {
+					decided = true
+				}
+			}
+			// a plain receive also waits
+			for _, d := range deref.Blocks {
+				for _, in := range d.Instrs {
+					if u, ok := in.(*ssa.UnOp); ok && u.Op == token.ARROW && (d == b || d.Dominates(b)) {
+						decided = true
+					}
+				}
+			}
+			r.check(decided, "C10.deref-waits", deref, "answer of Deref", ret.Pos(), "given after a select case fired", "Deref answers without having received anything (the default branch of a non-blocking select, or no wait at all): a reader that arrives while another holds the outcome, or before the delivery, gets a made-up answer instead of the future's outcome")
+		}
+		r.floor("C10.deref-waits", "returns of Deref", nw, 3)
+	}
 	for _, b := range newFuture.Blocks {
 		for _, in := range b.Instrs {
 			if mc, ok := in.(*ssa.MakeChan); ok {
@@ -990,6 +1046,17 @@ func checkC11(w *World, r *Report) {
 	}
 	capturedStateRule(w, r, e, "C11.captured-state")
 	sharedStateRule(w, r, "C11.package-state")
+	// a future bound to a global is read by any number of evaluations: each must get the outcome it gets alone
+	r.include("C11.future-", "C10.", "an evaluation that only reads a shared global future returns what it returns alone: every reader gets the one outcome", checkC10, func(rule string) bool {
+		switch rule {
+		case "C10.redeposit", "C10.deref-waits", "C10.single-outcome", "C10.done-before-deliver":
+			return true
+		}
+		return false
+	})
+	r.rule("C11.no-reentry", "no function of package env acquires a scope's mutex while it already holds it, or calls with the lock held a function that locks the same scope (sync.RWMutex is not re-entrant even for readers: concurrent evaluations on the shared environment would block each other forever)")
+	nre := reentryRule(w, r, e, "C11.no-reentry", w.pkgFuncs("env"))
+	r.floor("C11.no-reentry", "calls and acquisitions made with a scope lock held", nre, 3)
 	// own lock
 	r.rule("C11.own-lock", "every scope has a mutex of its own: the mu field of an Env is only ever assigned a mutex allocated in the same activation (the ascent to the outer scope locks the outer scope while the inner one is read-locked; with one shared mutex that is a recursive read lock, which dead-locks as soon as a writer queues between the two)")
 	nl := 0
@@ -1026,6 +1093,9 @@ func checkC11(w *World, r *Report) {
 // ctxParamArgs: set by the evaluator model; the arguments a helper's parameter stands for.
 var ctxParamArgs func(p *ssa.Parameter) []ssa.Value
 
+// ctxRoots collects the context parameters the last derivations bottomed out in (reset by the caller).
+var ctxRoots []*ssa.Parameter
+
 func ctxDerivation(e *Engine, v ssa.Value, seen map[ssa.Value]bool) ([]*ssa.Call, bool) {
 	if seen[v] {
 		return nil, true
@@ -1046,6 +1116,9 @@ func ctxDerivation(e *Engine, v ssa.Value, seen map[ssa.Value]bool) ([]*ssa.Call
 				}
 				return all, true
 			}
+		}
+		if isContext(x.Type()) {
+			ctxRoots = append(ctxRoots, x)
 		}
 		return nil, isContext(x.Type())
 	case *ssa.Extract:
@@ -1286,7 +1359,7 @@ func blockReaches(a, b *ssa.BasicBlock, same bool) bool {
 
 // doneFlagRule: future-done? reports the Done flag and nothing else, and the flag is only ever set.
 func doneFlagRule(w *World, r *Report, e *Engine, rule string) {
-	r.rule(rule, "IsDone returns the receiver's Done field on every path (no other input, such as what the outcome channels momentarily hold), and Done is only ever assigned true: once true, future-done? stays true")
+	r.rule(rule, "IsDone returns the receiver's Done field on every path (no other input, such as what the outcome channels momentarily hold), and the status flags Done and Cancelled of a shared future are only ever assigned true: once true, future-done? and future-cancelled? stay true")
 	isDone := w.Fn("lib/concurrent", "(*Future).IsDone")
 	if isDone == nil {
 		r.undecided(rule, nil, "(*Future).IsDone", token.NoPos, "method no longer resolves")
@@ -1325,7 +1398,11 @@ func doneFlagRule(w *World, r *Report, e *Engine, rule string) {
 					continue
 				}
 				fa, ok := st.Addr.(*ssa.FieldAddr)
-				if !ok || fieldName(fa.X.Type(), fa.Field) != "Done" {
+				flag := ""
+				if ok {
+					flag = fieldName(fa.X.Type(), fa.Field)
+				}
+				if flag != "Done" && flag != "Cancelled" {
 					continue
 				}
 				t := fa.X.Type()
@@ -1335,13 +1412,17 @@ func doneFlagRule(w *World, r *Report, e *Engine, rule string) {
 				if nt, ok := t.(*types.Named); !ok || nt.Obj().Name() != "Future" {
 					continue
 				}
+				if _, fresh := fa.X.(*ssa.Alloc); fresh {
+					continue // initialisation of a future nobody else has yet
+				}
 				n++
 				c, isC := st.Val.(*ssa.Const)
-				r.check(isC && c.Value != nil && c.Value.Kind() == constant.Bool && constant.BoolVal(c.Value), rule, fn, "store to Done", st.Pos(), "only ever set to true", "Done is assigned something other than true: future-done? can go back to false")
+				what := map[string]string{"Done": "future-done?", "Cancelled": "future-cancelled?"}[flag]
+				r.check(isC && c.Value != nil && c.Value.Kind() == constant.Bool && constant.BoolVal(c.Value), rule, fn, "store to "+flag, st.Pos(), "only ever set to true", flag+" is assigned something other than true: "+what+" can go back to false")
 			}
 		}
 	}
-	r.floor(rule, "returns of IsDone and stores to Done", n, 3)
+	r.floor(rule, "returns of IsDone and stores to the status flags", n, 4)
 }
 
 // capturedStateRule: a function value registered as a builtin is called by any number of evaluations at the
